@@ -92,6 +92,9 @@ type (
 		GetLocalReceiverCancelFunc(shardID history.ClusterShardID) (context.CancelFunc, bool)
 		// RemoveLocalReceiverCancelFunc unconditionally removes the cancel function for a local receiver for a specific shard ID
 		RemoveLocalReceiverCancelFunc(shardID history.ClusterShardID)
+		// RemoveLocalReceiver removes the ack channel, cancel function and active receiver of a local receiver,
+		// but only if expectedChan is still the registered ack channel (i.e. no successor has taken the shard over)
+		RemoveLocalReceiver(shardID history.ClusterShardID, expectedChan chan RoutedAck)
 
 		// Intra-proxy
 		// GetIntraProxyManager returns the intra-proxy manager if it exists
@@ -1233,6 +1236,25 @@ func (sm *shardManagerImpl) RemoveLocalReceiverCancelFunc(shardID history.Cluste
 	sm.localReceiverCancelFuncsMu.Lock()
 	defer sm.localReceiverCancelFuncsMu.Unlock()
 	delete(sm.localReceiverCancelFuncs, shardID)
+}
+
+// RemoveLocalReceiver removes every registry entry of a local receiver in one step, but only while
+// expectedChan is still the registered ack channel. A successor receiver registers its ack channel first,
+// so a predecessor that is cleaning up late never deletes the successor's entries.
+func (sm *shardManagerImpl) RemoveLocalReceiver(shardID history.ClusterShardID, expectedChan chan RoutedAck) {
+	sm.localAckChannelsMu.Lock()
+	defer sm.localAckChannelsMu.Unlock()
+	if currentChan, exists := sm.localAckChannels[shardID]; !exists || currentChan != expectedChan {
+		sm.logger.Info("Skipped removing local receiver for shard (superseded or already removed)", tag.NewStringTag("shardID", ClusterShardIDtoString(shardID)))
+		return
+	}
+	delete(sm.localAckChannels, shardID)
+	sm.localReceiverCancelFuncsMu.Lock()
+	delete(sm.localReceiverCancelFuncs, shardID)
+	sm.localReceiverCancelFuncsMu.Unlock()
+	sm.activeReceiversMu.Lock()
+	delete(sm.activeReceivers, shardID)
+	sm.activeReceiversMu.Unlock()
 }
 
 // shardEventDelegate handles memberlist cluster events
